@@ -534,6 +534,17 @@ def float_to_double(expression: exp.Expression) -> exp.Expression:
     return expression
 
 
+def hex_string(expression: exp.Expression) -> exp.Expression:
+    """Convert a hex string literal, eg: X'4142', to a binary value rather than an integer.
+
+    See https://docs.snowflake.com/en/sql-reference/data-types-text#binary-input-and-output
+    """
+    if isinstance(expression, exp.HexString):
+        return exp.Unhex(this=exp.Literal.string(expression.this))
+
+    return expression
+
+
 def identifier(expression: exp.Expression) -> exp.Expression:
     """Convert identifier function to an identifier.
 
